@@ -75,6 +75,9 @@ def run(chk, repo):
     zp = repo.find(M, "zero_pad")
     par = [a.arg for a in zp.args.args]
     chk.require(par[:4] == ["seq", "left", "right", "zero"], "zero_pad signature changed: %s" % par)
+    zd = [unparse(d) for d in zp.args.defaults]
+    chk.decide(zd == ["0", "0", "0.0"], "C08.zero_pad", W("zero_pad"), "defaults (left, right, zero) = %s" % zd,
+               why="no padding unless asked for; the zero value is 0.", node=zp)
     try:
         paths = summarise(zp)
     except NotSimple as ex:
@@ -138,10 +141,26 @@ def run(chk, repo):
         elif isinstance(st, ast.If) and any(isinstance(n, ast.For) and unparse(n.iter) == "seq" for n in ast.walk(st)) \
                 and main_if is None:
             main_if = st
-        elif isinstance(st, ast.If):
+        elif isinstance(st, ast.If) and main_if is not None and tail_if is None:
             tail_if = st
+        elif isinstance(st, ast.If) and main_if is None and "hop" in unparse(st.test):
+            pass            # a differently worded hop default: decided by the table below
         else:
             raise AnalysisError("blocks: unexpected statement '%s'" % short(st))
+    # the default of hop, whatever its wording (decision table)
+    from ..dtable import Facts, walk as _dwalk
+    pro = body[:body.index(main_if)] if main_if is not None else body
+    for given in (False, True):
+        w_ = _dwalk(pro, Facts(none=[] if given else ["hop"], kinds={"hop": {"int"}} if given else {}, values={}),
+                    "blocks prologue", strict=False)
+        hs = [x for x in w_.texts() if x.startswith("hop = ")]
+        chk.decide(hs == ([] if given else ["hop = size"]) or (not given and hs == ["hop = size if hop is None else hop"]) or
+                   (given and hs in (["hop = hop"],)), "C08.blocks.counter", W("blocks"),
+                   "hop %s -> %s" % ("given" if given else "None", "; ".join(hs) or "kept"),
+                   why="hop defaults to size (non-overlapping blocks) and is kept when given", node=bl)
+    dfl = [unparse(d) for d in bl.args.defaults]
+    chk.decide(dfl == ["None", "None", "0.0"], "C08.blocks.counter", W("blocks"), "defaults (size, hop, padval) = %s" % dfl,
+               why="documented defaults: size None, hop None (= size), padval 0.", node=bl)
     chk.require(dq is not None and main_if is not None and tail_if is not None,
                 "blocks: deque / main loops / tail not all found")
     resname = dq[0]
